@@ -176,7 +176,8 @@ func ruleC06Stack(c *Ctx) {
 		case *ssa.MapUpdate, *ssa.Go, *ssa.Defer:
 			clean = false
 		case *ssa.Call:
-			if core.CalleeKey(&x.Call) != "builtin.len" {
+			// len(), and the package's assertion helper (it has no effect unless it panics; C10 accounts for assertions)
+			if core.CalleeKey(&x.Call) != "builtin.len" && !(x.Call.StaticCallee() != nil && x.Call.StaticCallee() == c.fn("assert")) {
 				clean = false
 			}
 		}
